@@ -16,9 +16,9 @@ CHECKS = {
  "C02": dict(cat="exploration", tech="differential reference-model monitor on every generated successor along chains of the engine's own successors",
     text="Each generated successor is compared field by field (64 squares, side, rights, ep target, cached king squares, sentinel ring, move descriptor incl. promotion letter) with oracle.apply, following the engine's own successor objects for up to 300 plies so inherited fields are exercised, plus targeted promotion-then-castling/ep scripts.",
     ref="DESIGN.md §7 C02"),
- "C04": dict(cat="exploration", tech="differential monitor: text applier vs oracle vs generator successor vs fresh FEN load, per ply and per whole command line",
-    text="After every ply of oracle-driven games the board produced by the real make_move / play_out_position is compared (fields + hash) with the oracle, with the engine's own generated successor and with a fresh load; every generated move is printed by the engine's own printer and replayed. Explicit scripts cover castling both wings/sides, ep on every file, all promotions with/without capture on every file, rook moves/captures on each corner.",
-    ref="DESIGN.md §7 C04"),
+ "C04": dict(cat="exploration", tech="differential monitor: text applier vs oracle vs generator successor vs fresh FEN load, per ply and per whole command line; offline checker over the hooked binary's event log for sessions of related position commands",
+    text="After every ply of oracle-driven games the board produced by the real make_move / play_out_position is compared (fields + hash) with the oracle, with the engine's own generated successor and with a fresh load; every generated move is printed by the engine's own printer and replayed. Explicit scripts cover castling both wings/sides, ep on every file, all promotions with/without capture on every file, rook moves/captures on each corner. Through the real command loop of the hooked binary: sessions of 2-10 position commands related the way GUI traffic is (the same command again, the game continued, moves taken back down to the bare start, the last moves replaced, another game from the same start, ucinewgame and go in between); the board fields and key recorded after each command must be those the rules give for that command alone.",
+    ref="DESIGN.md §7 C04, §13.50"),
  "C05": dict(cat="exploration", tech="invariant monitor: incremental key vs key recomputed from the board's own fields, for all three producers; transposition pairs; component flips",
     text="For every board produced by the FEN loader, the text applier and the generator (both modes) along the walks, the incremental key is compared with a from-scratch key computed through the hasher's public getters; oracle-built transposition pairs must agree on all carriers; single-component flips must change the key; all 781 addressable constants are checked distinct and non-zero.",
     ref="DESIGN.md §7 C05"),
@@ -35,41 +35,41 @@ BB_NOTE = ("Trusted base: the session driver (history recorded at the client bou
            "upper bounds are solo-confirmed three times, hangs are decided from /proc. Holds only on the executions observed.")
 
 CHECKS.update({
- "C03": dict(cat="exploration", tech="offline checkers over recorded UCI transcripts and the hooked binary's event log, under parallel / pinned / failpoint-delayed schedules",
-    text="Thousands of go commands on the real binary (grid of clock values incl. absent, zero, negative and huge; chains of go without position) are checked for exactly one well-formed legal bestmove against the oracle-tracked position; the hooked build's internal event log is checked for FIFO/exactly-once hand-off between search_send and io_recv and 'printed move = last received' under seeded failpoint delays; the evidence lists the distinct interleaving signatures actually observed. Pipelined sessions (the whole script written without waiting for replies: one write, per line, or pieces that cut lines in two; ended by nothing, quit or end of input) are checked offline for the order of bestmove/readyok lines and the legality of every answer.",
+ "C03": dict(cat="exploration", tech="offline checkers over recorded UCI transcripts and the hooked binary's event log, under parallel / pinned / failpoint-delayed / ptrace-delayed schedules",
+    text="Thousands of go commands on the real binary (grid of clock values incl. absent, zero, negative and huge; chains of go without position) are checked for exactly one well-formed legal bestmove against the oracle-tracked position; the hooked build's internal event log is checked for FIFO/exactly-once hand-off between search_send and io_recv and 'printed move = last received' under seeded failpoint delays; the unmodified binary is also run under ptrace delay injection (a thread arriving at a channel operation, at its own start or at a standard-output entry point of the standard library is held there while the other runs on), which pulls apart calls that are not made under one lock; the evidence lists the distinct interleaving signatures actually observed. Pipelined sessions (the whole script written without waiting for replies: one write, per line, or pieces that cut lines in two; ended by nothing, quit or end of input) are checked offline for the order of bestmove/readyok lines and the legality of every answer.",
     ref="DESIGN.md §7 C03, §12.2", note=BB_NOTE),
- "C07": dict(cat="fault_enumeration", tech="fault enumeration over the clock-query index at which the allowance expires (virtual clock hook), prefix-of-unaborted-run oracle; failpoint schedules for the two-thread clause",
-    text="For each root and iteration limit the unaborted run is recorded, then the search is re-run with the allowance expiring at every (small trees) or a structured sample of clock-query indices k; each run must hand back only legal successors, report a sequence that is a prefix of the unaborted one, leave the repetition record unchanged and not panic. The schedule clause (send after the receiver is dropped) is driven on the hooked binary with delayed sends and read from its event log.",
+ "C07": dict(cat="fault_enumeration", tech="fault enumeration over the clock-query index at which the allowance expires (virtual clock hook), prefix-of-unaborted-run oracle; failpoint schedules (hooked binary) and ptrace delay injection at the channel operations (unmodified binary) for the two-thread clause",
+    text="For each root and iteration limit the unaborted run is recorded, then the search is re-run with the allowance expiring at every (small trees) or a structured sample of clock-query indices k; each run must hand back only legal successors, report a sequence that is a prefix of the unaborted one, leave the repetition record unchanged and not panic. The schedule clause (send after the receiver is dropped) is driven on the hooked binary with delayed sends and read from its event log, and on the unmodified binary with its threads held at channel send/try_recv, at the drop of a channel end and at thread start (stderr watched for a panic).",
     ref="DESIGN.md §7 C07"),
  "C08": dict(cat="exploration", tech="bounded-progress monitor over UCI sessions with terminal and non-terminal roots; hang verdict from /proc (search thread gone, no answer)",
-    text="Alternating terminal (checkmate/stalemate) and non-terminal roots under clock settings with planned slice <= 200 ms; a null move is required on terminal roots, a legal move otherwise, isready must be served afterwards. Clock settings include C03's wide grid (negative, zero, huge and out-of-range integers, unknown tokens; affordable lines chosen by a bound computed from the numbers written), finished games also get astronomical mover clocks, a third of the sessions switch the log file on, and a go after the engine's own game-ending move must be answered with a null move. Liveness is restated as a bound (slice + 300 ms, solo-confirmed) and hangs are decided logically.",
+    text="Alternating terminal (checkmate/stalemate) and non-terminal roots under clock settings with planned slice <= 200 ms; a null move is required on terminal roots, a legal move otherwise, isready must be served afterwards. Clock settings include C03's wide grid (negative, zero, huge and out-of-range integers, unknown tokens; affordable lines chosen by a bound computed from the numbers written), finished games also get astronomical mover clocks, a third of the sessions switch the log file on, and a go after the engine's own game-ending move must be answered with a null move. Liveness is restated as a bound (slice + 300 ms, solo-confirmed) and hangs are decided logically. Schedules: parallel, pinned to one CPU, hooked binary with failpoints, unmodified binary under ptrace delay injection at the channel operations, thread start and standard-output entry points.",
     ref="DESIGN.md §7 C08", note=BB_NOTE),
  "C09": dict(cat="exploration", tech="reference-policy monitor (upper bounds from the statement) on calculate_time_slice over an edge-value grid + random points; measured latency vs plan on the real binary",
     text="The real calculate_time_slice and go parser are evaluated on the full cross product of 24 edge values for clock and increment x 9 movestogo values x both colours plus ~10^6 log-uniform random points against bounds written from the statement only; the real binary's go->bestmove delay is compared with the plan (exact lower bound, solo-confirmed upper bound).",
     ref="DESIGN.md §7 C09", note=BB_NOTE),
  "C10": dict(cat="exploration", tech="reference-model monitor of the repetition record (oracle occurrence counts) + score>=0 invariant when a repetition move is available; hooked binary for the real handler incl. clear()",
-    text="Histories with 1-3 repetition sites of 1..99 cycles are loaded through the real position handler function and the record compared with oracle counts; sessions of 2-10 position commands on the hooked binary check the record after the real clear(); searches from materially lost roots with a move into a position that occurred 2,3,4,5 times must end every completed depth with a non-negative score (in-process under the virtual clock and on the real binary, there also for a second go without a new position after a forced first answer); perpetual-check roots whose third occurrence is completed inside the search line are compared with the exact reference search at depths 1-7; hooked sessions repeat position commands and send growing move lists.",
+    text="Histories with 1-3 repetition sites of 1..99 cycles are loaded through the real position handler function and the record compared with oracle counts; sessions of 2-10 position commands on the hooked binary check the record after the real clear(); searches from materially lost roots with a move into a position that occurred 2,3,4,5 times must end every completed depth with a non-negative score (in-process under the virtual clock and on the real binary, there also for a second go without a new position after a forced first answer); perpetual-check roots whose third occurrence is completed inside the search line are compared with the exact reference search at depths 1-7; hooked sessions repeat position commands, send growing move lists, take moves back and replace the last moves. The game behind a lost root also begins with an irreversible move (a pawn push or capture un-made by the oracle) so that the repeated target is the position born from the last capture or pawn move of the game, or lies one reversible ply after it.",
     ref="DESIGN.md §7 C10"),
- "C11": dict(cat="exploration", tech="differential monitor of mate claims and played moves against a full-width mate solver (in-process under the virtual clock, and the move played by the real binary under 1-20 ms slices)",
-    text="Real searches (all iterations up to a limit complete under the virtual clock) on endgame families, cornered-king sparse-material roots and positions 1-5 plies before mate; the oracle's solver judges mate-in-1 played, avoidable mate avoided after iterations 2-3, every 'mate N' (N<=3) true, 'mate -N' true on the last line of completed depths, stalemating moves never reported as mate. Black box: the move the real binary plays under 1-20 ms slices, judged only when an info line printed before the allowance ended proves that the first (second) iteration had finished.",
+ "C11": dict(cat="exploration", tech="differential monitor of mate claims and played moves against a full-width mate solver and exact three-man distance-to-mate tables built by the oracle (in-process under the virtual clock, and the move played by the real binary under 1-20 ms slices)",
+    text="Real searches (all iterations up to a limit complete under the virtual clock) on endgame families, cornered-king sparse-material roots and positions 1-5 plies before mate; the oracle's solver judges mate-in-1 played, avoidable mate avoided after iterations 2-3, every 'mate N' (N<=3) true, 'mate -N' true on the last line of completed depths, stalemating moves never reported as mate. On K+Q / K+R / K+P v K roots (true distance 4-7 moves, searched to depth 9-10) every mate claim of any length is decided exactly by distance-to-mate tables the oracle builds from its own move generation (self-tested: longest mates 10, 16, 28 moves). Black box: the move the real binary plays under 1-20 ms slices, judged only when an info line printed before the allowance ended proves that the first (second) iteration had finished.",
     ref="DESIGN.md §7 C11"),
  "C12": dict(cat="exploration", tech="differential monitor against a heuristic-free alpha-beta reference over the engine's own evaluation and move generation",
     text="For depths 1-3 the reported score and the selected move's value are compared with the exact minimax value computed by an independent, heuristic-free search that shares only the engine's leaf primitives; the reference is cross-checked against un-pruned minimax in every run.",
     ref="DESIGN.md §7 C12"),
- "C14": dict(cat="exploration", tech="metamorphic monitor (mirror, negation, irrelevance of non-placement state, bound) incl. exhaustive single-piece basis",
-    text="get_evaluation is checked for mirror symmetry, negation under side swap, independence from every non-placement field and |eval| <= 50000 on the exhaustive single-piece basis (12 x 64 squares x 14 phase levels x 2 sides) and ~2.5*10^5 random placements with up to nine queens a side.",
+ "C14": dict(cat="exploration", tech="metamorphic monitor (mirror, negation, irrelevance of non-placement state, bound) incl. exhaustive single-piece basis; differential monitor of generator-chain and text-applier boards against a fresh load along game walks",
+    text="get_evaluation is checked for mirror symmetry, negation under side swap, independence from every non-placement field and |eval| <= 50000 on the exhaustive single-piece basis (12 x 64 squares x 14 phase levels x 2 sides) and ~2.5*10^5 random placements with up to nine queens a side. Along game walks (library starts and nearly full boards with surplus queens and pawns about to promote; captures and promotions preferred) the board that came down the generator's own successor chain and the board the text applier has been playing on must evaluate exactly like a fresh load of the same position at every ply.",
     ref="DESIGN.md §7 C14"),
  "C15": dict(cat="exploration", tech="totality monitor (catch_unwind + CLI exit status) over generated, mutated, Unicode and exhaustive ep-field strings; faithfulness against the oracle's strict parser",
     text="~4*10^5 strings per quick run through the real from_fen (no panic; well-formed legal FENs with counters up to 70000 accepted and loaded faithfully), the ep field exhaustively over all 1-3 symbol strings of a 40-symbol alphabet, and a sample through the real binary's command line, incl. arguments that are not UTF-8 (exit 0, no panic, and the load error printed - never a perft - whenever the real from_fen rejects the same input).",
     ref="DESIGN.md §7 C15"),
  "C16": dict(cat="exploration", tech="differential monitor: probe after arbitrary session prefix vs fresh process (bestmove equality, prefix-compatible info sequences)",
-    text="Probes (zero-slice and timed) issued after generated prefixes of up to 60 commands, including the probed game itself so that a leaked repetition record doubles counts, are compared with fresh-engine references.",
+    text="Probes (zero-slice and timed) issued after generated prefixes of up to 60 commands, including the probed game itself so that a leaked repetition record doubles counts, are compared with fresh-engine references. Long sessions (the probed game searched once, then 253..258 / 509..514 - thorough: also about 1024, 4096, 65536 - searches of other positions, then the probe) look for state that is told apart by a small counter or generation number.",
     ref="DESIGN.md §7 C16", note=BB_NOTE),
  "C17": dict(cat="exploration", tech="differential monitor of scripts with/without garbage lines; lifecycle checks via /proc (exit, CPU time after EOF)",
     text="Scripts with unknown lines inserted at random points must give the same answers as without them, isready is always answered, quit and EOF end the process promptly and it does not spin (process CPU time vs wall time). Scripts switch the engine's log file on in half of the sessions, carry long multi-byte and non-UTF-8 lines, and are also written pipelined (no waiting for replies) and ended by quit or end of input. Unknown lines include command words with control or invisible characters inside, long lines made of command words, NUL bytes, megabyte lines; end of input also arrives in the middle of a line.",
     ref="DESIGN.md §7 C17", note=BB_NOTE),
  "C18": dict(cat="exploration", tech="trace-specification monitor (strict grammar + bounds + monotonicity) over info lines from clock-cut in-process searches and real transcripts",
-    text="Every info line produced while the virtual clock cuts the search at enumerated points, and every line of timed go commands on the real binary, is parsed against the strict grammar and checked for depth monotonicity, score bounds (incl. the value implied by mate N), first-PV-move legality and strictly increasing scores within a depth.",
+    text="Every info line produced while the virtual clock cuts the search at enumerated points, and every line of timed go commands on the real binary, is parsed against the strict grammar and checked for depth monotonicity, score bounds (incl. the value implied by mate N), first-PV-move legality and strictly increasing scores within a depth. The black box includes info bursts at the deadline (a quarter of them under ptrace delay injection at the standard-output entry points, which tears lines that are not written under one lock) and searches of 1.2-3 s on balanced middle-game roots produced by the engine's own self-play, where one depth prints several lines hundreds of milliseconds apart.",
     ref="DESIGN.md §7 C18"),
 })
 
@@ -93,7 +93,7 @@ manifest = {
   "engines": [
     {"name": "wmon", "path": "harness/", "serves_properties": sorted(CHECKS.keys()),
      "kind_free_text": "Rust monitor harness compiled together with /repo/src/*.rs (cfg walleye_verif): independent rules oracle, workload generators, per-property monitors, virtual clock driver, evidence/replay writers"},
-    {"name": "bb", "path": "harness/src/bb.rs", "serves_properties": ["C03", "C07", "C08", "C09", "C10", "C11", "C15", "C16", "C17", "C18"],
+    {"name": "bb", "path": "harness/src/bb.rs", "serves_properties": ["C03", "C04", "C07", "C08", "C09", "C10", "C11", "C15", "C16", "C17", "C18"],
      "kind_free_text": "black-box session driver over two builds of /repo itself (.target/bb-plain guard off, .target/bb-hooked with --cfg walleye_verif: event log + failpoints), transcript and event-log checkers"},
   ],
   "checks": [],
